@@ -303,34 +303,50 @@ def pairsOf {α} : List α → List (α × α)
   | a :: b :: r => (a, b) :: pairsOf r
   | _ => []
 
-/-- `Node._process_mn_args`: `(control, bus)` pairs; an int bus means one channel -/
-def mnArgs (c : Core) (args : List Val) : Option (List Arg) :=
-  (pairsOf args).foldr (fun (p : Val × Val) acc => do
-    let rest ← acc
-    let ctl ← atomArg c p.1
-    match p.2 with
-    | .int i => pure (ctl :: ai i :: ai 1 :: rest)
-    | .tt => pure (ctl :: .atom .tt :: ai 1 :: rest)         -- bool is an int in Python
-    | .ff => pure (ctl :: .atom .ff :: ai 1 :: rest)
-    | .bus h => do
-      let b ← c.buses[h]?
-      let i ← b.index
-      let ch ← b.channels
-      pure (ctl :: ai i :: ai ch :: rest)
-    | _ => none) (some [])
+/-- the `(index, channels)` a bus argument of `mapn` stands for: an int means one channel -/
+def mnBus (c : Core) : Val → Option (Arg × Arg)
+  | .int i => some (ai i, ai 1)
+  | .tt => some (.atom .tt, ai 1)          -- bool is an int in Python
+  | .ff => some (.atom .ff, ai 1)
+  | .bus h => do
+    let b ← c.buses[h]?
+    let i ← b.index
+    let ch ← b.channels
+    pure (ai i, ai ch)
+  | _ => none
 
-/-- `Node.setn`: `(control, list)` → control, len, values; `(control, scalar)` → control, 1, scalar -/
-def setnArgs (c : Core) (args : List Val) : Option (List Arg) :=
-  (pairsOf args).foldr (fun (p : Val × Val) acc => do
-    let rest ← acc
-    let ctl ← atomArg c p.1
-    match p.2 with
-    | .list l => do
-      let vs ← l.mapM (atomArg c)
-      pure (ctl :: ai l.length :: vs ++ rest)
-    | v => do
-      let a ← atomArg c v
-      pure (ctl :: ai 1 :: a :: rest)) (some [])
+/-- `Node._process_mn_args`: `(control, bus)` pairs (`gen_cclumps(tpl, 2)`: complete pairs only) -/
+def mnArgs (c : Core) : List Val → Option (List Arg)
+  | k :: b :: r => do
+    let ctl ← atomArg c k
+    let ib ← mnBus c b
+    let rest ← mnArgs c r
+    pure (ctl :: ib.1 :: ib.2 :: rest)
+  | _ => some []
+
+/-- the value part of a `setn` pair: a list → len, values; a scalar → 1, scalar -/
+def setnVal (c : Core) : Val → Option (List Arg)
+  | .list l => do let vs ← l.mapM (atomArg c); pure (ai l.length :: vs)
+  | v => do let a ← atomArg c v; pure [ai 1, a]
+
+/-- `Node.setn` / `Buffer.setn`: `(control, list)` → control, len, values; `(control, scalar)` →
+    control, 1, scalar -/
+def setnArgs (c : Core) : List Val → Option (List Arg)
+  | k :: v :: r => do
+    let ctl ← atomArg c k
+    let vs ← setnVal c v
+    let rest ← setnArgs c r
+    pure (ctl :: vs ++ rest)
+  | _ => some []
+
+/-- `ControlBus.set_pairs`: the `(offset, value)` pairs (`gen_cclumps(pairs, 2)`) -/
+def cpairsPre (c : Core) : List Val → Option (List (Int × Arg))
+  | .int o :: v :: r => do
+    let a ← atomArg c v
+    let rest ← cpairsPre c r
+    pure ((o, a) :: rest)
+  | _ :: _ :: _ => none
+  | _ => some []
 
 /-- `Node.release` gate value -/
 def releaseGate : Val → Option Arg
@@ -517,12 +533,8 @@ def Core.stepCore (c : Core) : Op → Res
   | .csetnat h off vals =>
     c.cbusCmd h (ctlInputs c vals) fun i _ vs => ("/c_setn", ai (i + off) :: ai vals.length :: vs)
   | .cpairs h pairs =>
-    c.cbusCmd h ((pairsOf pairs).mapM fun (p : Val × Val) => do
-        let v ← atomArg c p.2
-        match p.1 with
-        | .int o => pure (o, v)
-        | _ => none)
-      fun i _ ps => ("/c_set", ps.flatMap fun (p : Int × Arg) => [ai (i + p.1), p.2])
+    c.cbusCmd h (cpairsPre c pairs) fun i _ ps =>
+      ("/c_set", ps.flatMap fun (p : Int × Arg) => [ai (i + p.1), p.2])
   | .cfill h value ch =>
     c.cbusCmd h (do let v ← atomArg c value; let n ← atomArg c ch; pure (v, n))
       fun i _ p => ("/c_fill", [ai i, p.2, p.1])
